@@ -530,7 +530,128 @@ def table_ok_for(A, cfg):
     return True
 
 
+def part_env(sh, res):
+    """the documented ways to name the JOIN table of a CSV query - absolute path, path relative to the main table, path relative to the working directory, ~-path,
+    a name registered in ~/.rbql_table_names - and the default init file ~/.rbql_init_source.py: the same result as query_table gives with the data / code passed directly"""
+    rb = tree.load()
+    eng = tree.engine()
+    from rbql import rbql_main
+    base = '/dev/shm' if os.path.isdir('/dev/shm') else tempfile.gettempdir()
+    scratch = tempfile.mkdtemp(prefix='vfc13e.', dir=base)
+    saved_home, saved_cwd = os.environ.get('HOME'), os.getcwd()
+    try:
+        home, work, data = [os.path.join(scratch, d) for d in ('home', 'work', 'data')]
+        for d in (home, work, data, os.path.join(work, 'sub'), os.path.join(home, 'tables'), os.path.join(data, 'near')):
+            os.makedirs(d)
+        os.environ['HOME'] = home
+        os.chdir(work)
+        A, Bt = TABLES[0], [['k', 'J1'], ['m', 'J2'], ['zz', 'J3']]
+        p1 = os.path.join(data, 't1.csv')
+        with open(p1, 'w', newline='', encoding='utf-8') as f:
+            f.write(refcsv.ref_write(A, ',', 'quoted'))
+        spots = {'absolute': (os.path.join(scratch, 'abs_b.csv'), os.path.join(scratch, 'abs_b.csv')), 'relative_to_main_table': (os.path.join(data, 'near', 'nb.csv'), 'near/nb.csv'),
+                 'relative_to_cwd': (os.path.join(work, 'sub', 'wb.csv'), 'sub/wb.csv'), 'tilde': (os.path.join(home, 'tables', 'hb.csv'), '~/tables/hb.csv'),
+                 'registered_name': (os.path.join(scratch, 'reg_b.csv'), 'my_countries')}
+        for kind, (path, ref) in spots.items():
+            with open(path, 'w', newline='', encoding='utf-8') as f:
+                f.write(refcsv.ref_write(Bt, ',', 'quoted'))
+        with open(os.path.join(home, '.rbql_table_names'), 'w') as f:
+            f.write('other_table\t/nonexistent/x.csv\nmy_countries\t%s\n' % spots['registered_name'][0])
+        J = lambda t: {'type': t, 'keys': [(F('a', 1), F('b', 1))]}
+        S = lambda **kw: dict({'kind': 'select', 'where': None, 'join': None, 'order': None, 'distinct': None, 'top': None, 'group': None}, **kw)
+        qs = [S(items=[F('a', 1), F('b', 2)], join=J('JOIN')), S(items=[('star', None)], join=J('LEFT JOIN')), {'kind': 'update', 'assign': [(F('a', 2), F('b', 2))], 'where': None, 'join': J('INNER JOIN')}]
+        po = os.path.join(scratch, 'out.csv')
+        for q in qs:
+            exp = refql.evaluate(q, A, Bt, None, None)
+            for kind, (path, ref) in spots.items():
+                text = render(q, ref)
+                for route in ('query_csv', 'cli'):
+                    err, recs = None, None
+                    try:
+                        if route == 'query_csv':
+                            rb.query_csv(text, p1, ',', 'quoted', po, ',', 'quoted', 'utf-8', [], False)
+                        else:
+                            saved = (sys.argv, sys.stdout, sys.stderr)
+                            sys.argv, sys.stdout, sys.stderr = ['rbql', '--query', text, '--delim', ',', '--input', p1, '--output', po], io.StringIO(), io.StringIO()
+                            try:
+                                rbql_main.main()
+                            except SystemExit as e:
+                                if e.code not in (0, None):
+                                    err = 'exit %r: %s' % (e.code, sys.stderr.getvalue()[:200])
+                            finally:
+                                sys.argv, sys.stdout, sys.stderr = saved
+                        if err is None:
+                            with open(po, newline='', encoding='utf-8') as f:
+                                recs = refcsv.ref_read(f.read(), ',', 'quoted').records
+                            os.remove(po)
+                    except Exception as e:
+                        err = err_class(e) + ': ' + str(e)[:200]
+                    res.evaluations += 1
+                    res.traces += 1
+                    res.states += 1
+                    res.feat('ep_join_table_' + kind)
+                    if err is not None or recs != strtab(exp.records):
+                        res.violation('entry-point-disagrees', {'entry_point': route, 'join_table_named_by': kind, 'reference_in_query': ref, 'query': text, 'cwd': 'work/', 'main_table': 'data/t1.csv'}, {'records': strtab(exp.records)}, {'records': recs, 'error': err})
+                    else:
+                        res.nontrivial += 1
+        # the default init file: functions defined in ~/.rbql_init_source.py are available to CSV queries (library and command line)
+        code = "def tag(x):\n    return 'T:' + x\nSUFFIX = '!'\n"
+        with open(os.path.join(home, '.rbql_init_source.py'), 'w') as f:
+            f.write(code)
+        text = "select tag(a1), a2 + SUFFIX"
+        out = []
+        eng.query_table(text, qcheck.copy_table(A), out, [], user_init_code=code)
+        want = strtab(out)
+        db = os.path.join(scratch, 'db.sqlite')
+        conn = sqlite3.connect(db)
+        conn.execute('CREATE TABLE t (c1 TEXT, c2 TEXT, c3 TEXT)')
+        conn.executemany('INSERT INTO t VALUES (?, ?, ?)', A)
+        conn.commit()
+        conn.close()
+        for route, argv in (('query_csv', None), ('cli', ['rbql', '--query', text, '--delim', ',', '--input', p1, '--output', po]), ('cli_sqlite', ['rbql', 'sqlite', db, '--input', 't', '--query', text, '--output', po])):
+            err, recs = None, None
+            try:
+                if argv is None:
+                    rb.query_csv(text, p1, ',', 'quoted', po, ',', 'quoted', 'utf-8', [], False)
+                else:
+                    saved = (sys.argv, sys.stdout, sys.stderr)
+                    sys.argv, sys.stdout, sys.stderr = list(argv), io.StringIO(), io.StringIO()
+                    try:
+                        rbql_main.main()
+                    except SystemExit as e:
+                        if e.code not in (0, None):
+                            err = 'exit %r: %s' % (e.code, sys.stderr.getvalue()[:200])
+                    finally:
+                        sys.argv, sys.stdout, sys.stderr = saved
+                if err is None:
+                    with open(po, newline='', encoding='utf-8') as f:
+                        recs = refcsv.ref_read(f.read(), ',', 'quoted_rfc' if route == 'cli_sqlite' else 'quoted').records
+                    if route == 'cli_sqlite':
+                        recs = recs[1:]        # sqlite tables always have a header
+                    os.remove(po)
+            except Exception as e:
+                err = err_class(e) + ': ' + str(e)[:200]
+            res.evaluations += 1
+            res.traces += 1
+            res.feat('ep_default_init_file')
+            if err is not None or recs != want:
+                res.violation('entry-point-disagrees', {'entry_point': route, 'feature': '~/.rbql_init_source.py', 'query': text}, {'records': want}, {'records': recs, 'error': err})
+            else:
+                res.nontrivial += 1
+        res.sample({'join_table_named_by': sorted(spots), 'default_init_file': '~/.rbql_init_source.py'})
+    finally:
+        os.chdir(saved_cwd)
+        if saved_home is None:
+            os.environ.pop('HOME', None)
+        else:
+            os.environ['HOME'] = saved_home
+        shutil.rmtree(scratch, ignore_errors=True)
+    return res
+
+
 def run_shard(sh):
+    if sh['part'] == 'env':
+        return part_env(sh, core.Result())
     res = core.Result()
     base = '/dev/shm' if os.path.isdir('/dev/shm') else tempfile.gettempdir()
     scratch = tempfile.mkdtemp(prefix='vfc13.', dir=base)
@@ -614,13 +735,14 @@ def main(tier, seed):
     for part, n in (('api', 16), ('cli_in', 16), ('cli_sub', 32)):
         for i in range(n):
             shards.append({'part': part, 'shard': i, 'nshards': n, 'tier': tier})
+    shards.append({'part': 'env', 'shard': 0, 'nshards': 1, 'tier': tier})
     res = core.run_shards('vf.checks.c13', shards)
     return core.finish(PID, tier, seed, res, t0,
         rule='34 queries x 3 tables x {header, no header} (+ named-column queries) through 6 library entry points (query_table, query with Table* classes, query with own plain classes, query_csv, pandas, sqlite->csv), '
              'the CLI in-process under 6 configurations x {file, stdin->stdout} with special-cell tables for explicit policies, the `rbql sqlite` command line in-process (--out-format omitted / csv / tsv x file / stdout, cells with line breaks and tabs), and real `python -m rbql` subprocesses rotating over all configurations; non-trivial = a successful run that agrees with RefQL',
         assumptions=['results are compared after str(); expressions are type-agnostic over string cells', 'child processes run with PYTHONWARNINGS=ignore (Python 3.12 prints its own SyntaxWarning when compiling rbql_engine.py from source)'],
         extra={'cli_configurations': [list(c[:3]) + [cfg_enc(c)] for c in CLI_CFGS]},
-        min_features={'ep_query_table': 100, 'ep_query_registry_from': 1000, 'ep_pandas_duplicate_labels': 50, 'ep_query_custom_classes': 100, 'ep_query_csv': 100, 'ep_query_csv_comment_prefix': 100, 'ep_pandas': 100, 'ep_sqlite_to_csv': 50, 'ep_cli_inprocess_file': 300, 'ep_cli_inprocess_stdin': 300,
+        min_features={'ep_query_table': 100, 'ep_query_registry_from': 1000, 'ep_pandas_duplicate_labels': 50, 'ep_join_table_registered_name': 6, 'ep_join_table_relative_to_cwd': 6, 'ep_join_table_tilde': 6, 'ep_default_init_file': 3, 'ep_query_custom_classes': 100, 'ep_query_csv': 100, 'ep_query_csv_comment_prefix': 100, 'ep_pandas': 100, 'ep_sqlite_to_csv': 50, 'ep_cli_inprocess_file': 300, 'ep_cli_inprocess_stdin': 300,
                       'ep_cli_sqlite_file': 300, 'ep_cli_sqlite_stdout': 300, 'ep_cli_subprocess_file': 30, 'ep_cli_subprocess_stdin': 30, 'cli_failures_ok': 20, 'failing_agree': 20})
 
 
